@@ -5,6 +5,14 @@ pid = sys.argv[1]
 variant = sys.argv[2] if len(sys.argv) > 2 else ""
 wt = f"/tmp/wt/{pid}{variant}"
 p = next(json.loads(l) for l in open("/verif/properties.jsonl") if json.loads(l)["id"] == pid)
+avoid = ""
+try:
+    import glob
+    prev = [json.load(open(f)).get("summary", "") for f in sorted(glob.glob(f"/verif/seeded/{pid}*/meta.json"))]
+    if prev:
+        avoid = "\nEarlier attempts (do something DIFFERENT - another code site, another mechanism, another way to manifest):\n" + "\n".join(f"  - {x[:400]}" for x in prev) + "\n"
+except Exception:
+    pass
 print(f"""You are helping to evaluate a verification harness by seeding ONE realistic defect into a library.
 
 Work ONLY inside the git worktree {wt} (a checkout of the DataShard repository: a pure-Python, Iceberg-inspired table format with OCC snapshot commits over local/S3 storage, a version-hint commit pointer, Avro manifests, distributed locks and a fail-closed garbage collector; sources in {wt}/src/datashard). Do NOT read or modify anything under /repo or /verif, and do not look for other people's tests of this property outside the worktree.
@@ -14,6 +22,7 @@ The property the library is supposed to satisfy:
   {p['id']} - {p['title']}
   {p['statement']}
 
+{avoid}
 Your task: make ONE small change to the library source under {wt}/src/datashard that BREAKS this property, such that
  (a) the package still imports and the existing test-suite still passes exactly as before. Run it with
        cd {wt} && PYTHONPATH={wt}/src /venv/bin/python -m pytest -q -p no:cacheprovider --timeout=900 tests
@@ -25,6 +34,6 @@ Environment: /venv/bin/python (3.12) has pyarrow, fastavro, boto3/botocore, hypo
 
 Deliverables, all inside {wt}/seeded/ :
   - patch.diff : `git -C {wt} diff HEAD -- src` of your change (must apply with `git apply` on a clean checkout);
-  - demo.py    : a standalone program, run as `PYTHONPATH={wt}/src /venv/bin/python {wt}/seeded/demo.py`, that exits with code 1 and prints what went wrong when the property is violated and exits 0 when it holds. It MUST exit 1 with your change applied and 0 on the unchanged tree (verify both, e.g. with `git stash` / `git stash pop`). Deterministic if at all possible (force the interleaving / fault by monkeypatching a storage call, a barrier, or an injected exception rather than relying on timing);
+  - demo.py    : a standalone program, run as `PYTHONPATH={wt}/src /venv/bin/python {wt}/seeded/demo.py`, that exits with code 1 and prints what went wrong when the property is violated and exits 0 when it holds. It MUST exit 1 with your change applied and 0 on the unchanged tree (verify both with `git apply -R seeded/patch.diff` / `git apply seeded/patch.diff`; do NOT use `git stash`, the stash is shared with other worktrees). Deterministic if at all possible (force the interleaving / fault by monkeypatching a storage call, a barrier, or an injected exception rather than relying on timing);
   - meta.json  : {{"property": "{p['id']}", "summary": "...", "needs": "what is needed for the bug to manifest", "files_changed": [...], "ran": ["commands you ran and their results"]}}.
 Leave the worktree with your change applied (uncommitted). Finish with a short report: what you changed, why the tests do not notice, what the demo does, and the demo's exit codes with and without the change.""")
